@@ -6,6 +6,25 @@ Open Scope Z_scope.
 
 Definition word_size (ws : Z) : Prop := ws = 4 \/ ws = 8.
 
+(* values in the range of their Go type *)
+Definition wf (ws : Z) (k : kind) (v : Z) : Prop :=
+  match k with
+  | KBool => v = 0 \/ v = 1
+  | KU8 => in_u 8 v
+  | KI8 => in_s 8 v
+  | KU16 => in_u 16 v
+  | KI16 => in_s 16 v
+  | KU32 | KF32 => in_u 32 v
+  | KI32 => in_s 32 v
+  | KU64 | KF64 => in_u 64 v
+  | KI64 => in_s 64 v
+  | KUint => in_u (8 * ws) v
+  | KInt => in_s (8 * ws) v
+  end.
+
+Definition tv : Type := (kind * Z)%type.
+Definition wf_tv (ws : Z) (x : tv) : Prop := wf ws (fst x) (snd x).
+
 (* the bytes one write appends *)
 Definition enc (ws : Z) (k : kind) (v : Z) : list Z := write ws k v [].
 
@@ -23,3 +42,266 @@ Qed.
 
 Lemma write_length ws k v b : length (write ws k v b) = (length b + width ws k)%nat.
 Proof. rewrite write_app, app_length, enc_length. reflexivity. Qed.
+
+Lemma width_pos ws k : (0 < width ws k)%nat.
+Proof. destruct k; cbn [width]; try destruct (is64 ws); lia. Qed.
+
+(* the unsigned number whose little-endian bytes a write appends: the value's two's complement
+   at the width of its type *)
+Definition ubits (ws : Z) (k : kind) (v : Z) : Z := v mod 2 ^ (8 * Z.of_nat (width ws k)).
+
+Lemma pow256 n : 256 ^ Z.of_nat n = 2 ^ (8 * Z.of_nat n).
+Proof. change 256 with (2 ^ 8). rewrite <- Z.pow_mul_r by lia. reflexivity. Qed.
+
+Lemma wrapu8_le_put v : [wrapu 8 v] = le_put 1 v.
+Proof. reflexivity. Qed.
+
+Lemma le_put_wrapu n bits v : bits = 8 * Z.of_nat n -> le_put n (wrapu bits v) = le_put n v.
+Proof. intros ->. unfold wrapu. rewrite <- pow256. apply le_put_mod. Qed.
+
+Lemma le_put_ubits ws k v : le_put (width ws k) (ubits ws k v) = le_put (width ws k) v.
+Proof. unfold ubits. rewrite <- pow256. apply le_put_mod. Qed.
+
+(* every write appends the little-endian bytes of the value's two's complement *)
+Lemma enc_le_put ws k v : word_size ws -> wf ws k v -> enc ws k v = le_put (width ws k) (ubits ws k v).
+Proof.
+  intros Hws Hwf. rewrite le_put_ubits. unfold enc.
+  destruct k; cbn [write width]; unfold write_u8, write_u16, write_u32, write_u64; cbn [app];
+    rewrite ?wrapu8_le_put;
+    try reflexivity;
+    try (rewrite !le_put_wrapu by reflexivity; reflexivity).
+  - (* bool *) cbn [wf] in Hwf. destruct Hwf as [-> | ->]; reflexivity.
+  - (* uint *) destruct Hws as [-> | ->]; cbn [is64 Z.eqb Pos.eqb]; rewrite le_put_wrapu by reflexivity; reflexivity.
+  - (* int *) cbn [wf] in Hwf.
+    destruct Hws as [-> | ->]; cbn [is64 Z.eqb Pos.eqb]; rewrite le_put_wrapu by reflexivity;
+      rewrite wraps_small by (try lia; exact Hwf); reflexivity.
+Qed.
+
+Lemma enc_nth ws k v i : word_size ws -> wf ws k v -> (i < width ws k)%nat ->
+  nth i (enc ws k v) 0 = (ubits ws k v / 256 ^ Z.of_nat i) mod 256.
+Proof. intros Hws Hwf Hi. rewrite enc_le_put by assumption. apply le_put_nth; assumption. Qed.
+
+(* ---- reading one value back ----------------------------------------------------------- *)
+Lemma read_raw_nonempty n b : b <> [] -> read_raw n b = Some (le_get (firstn n b), skipn n b).
+Proof. destruct b; [congruence|reflexivity]. Qed.
+
+Lemma read_raw_put n u rest : (0 < n)%nat ->
+  read_raw n (le_put n u ++ rest) = Some (u mod 256 ^ Z.of_nat n, rest).
+Proof.
+  intros Hn. rewrite read_raw_nonempty.
+  - rewrite le_get_firstn_app, skipn_le_put_app. reflexivity.
+  - destruct n; [lia|]. cbn [le_put app]. discriminate.
+Qed.
+
+(* the typed view of the stored bits is the value written *)
+Lemma view_ubits ws k v : word_size ws -> wf ws k v ->
+  view ws k (ubits ws k v mod 256 ^ Z.of_nat (width ws k)) = v.
+Proof.
+  intros Hws Hwf. unfold ubits. rewrite pow256.
+  rewrite Z.mod_mod by (pose proof (pow2_pos (8 * Z.of_nat (width ws k))); lia).
+  destruct k; cbn [wf width view] in *.
+  - destruct Hwf as [-> | ->]; reflexivity.
+  - apply Z.mod_small. exact Hwf.
+  - change (8 * Z.of_nat 1) with 8. apply (wraps_wrapu_small 8); [lia|exact Hwf].
+  - apply Z.mod_small. exact Hwf.
+  - change (8 * Z.of_nat 2) with 16. apply (wraps_wrapu_small 16); [lia|exact Hwf].
+  - apply Z.mod_small. exact Hwf.
+  - change (8 * Z.of_nat 4) with 32. apply (wraps_wrapu_small 32); [lia|exact Hwf].
+  - apply Z.mod_small. exact Hwf.
+  - change (8 * Z.of_nat 8) with 64. apply (wraps_wrapu_small 64); [lia|exact Hwf].
+  - destruct Hws as [-> | ->]; cbn [is64 Z.eqb Pos.eqb]; apply Z.mod_small; exact Hwf.
+  - destruct Hws as [-> | ->]; cbn [is64 Z.eqb Pos.eqb].
+    + change (8 * Z.of_nat 4) with 32. apply (wraps_wrapu_small 32); [lia|exact Hwf].
+    + change (8 * Z.of_nat 8) with 64. apply (wraps_wrapu_small 64); [lia|exact Hwf].
+  - apply Z.mod_small. exact Hwf.
+  - apply Z.mod_small. exact Hwf.
+Qed.
+
+Lemma read_enc ws k v rest : word_size ws -> wf ws k v ->
+  read ws k (enc ws k v ++ rest) = (Some v, rest).
+Proof.
+  intros Hws Hwf. unfold read. rewrite enc_le_put by assumption.
+  rewrite read_raw_put by apply width_pos. rewrite view_ubits by assumption. reflexivity.
+Qed.
+
+Lemma peek_enc ws k v rest : word_size ws -> wf ws k v ->
+  peek ws k (enc ws k v ++ rest) = Some v.
+Proof.
+  intros Hws Hwf. unfold peek. rewrite app_length, enc_length.
+  replace (width ws k + length rest <? width ws k)%nat with false by (symmetry; apply Nat.ltb_ge; lia).
+  rewrite enc_le_put by assumption. rewrite le_get_firstn_app, view_ubits by assumption. reflexivity.
+Qed.
+
+(* peek against the next read, on any buffer *)
+Lemma peek_is_read ws k b : (width ws k <= length b)%nat ->
+  peek ws k b = fst (read ws k b) /\ snd (read ws k b) = skipn (width ws k) b.
+Proof.
+  intros Hlen. unfold peek, read.
+  replace (length b <? width ws k)%nat with false by (symmetry; apply Nat.ltb_ge; lia).
+  rewrite read_raw_nonempty.
+  - split; reflexivity.
+  - pose proof (width_pos ws k). destruct b; [cbn in Hlen; lia|discriminate].
+Qed.
+
+Lemma peek_short ws k b : (length b < width ws k)%nat -> peek ws k b = None.
+Proof. intros H. unfold peek. now rewrite (proj2 (Nat.ltb_lt _ _) H). Qed.
+
+Lemma read_empty ws k : read ws k [] = (None, []).
+Proof. reflexivity. Qed.
+
+(* ---- sequences -------------------------------------------------------------------------- *)
+Definition encs (ws : Z) (q : list tv) : list Z := concat (map (fun x => enc ws (fst x) (snd x)) q).
+
+Lemma encs_app ws a b : encs ws (a ++ b) = encs ws a ++ encs ws b.
+Proof. unfold encs. now rewrite map_app, concat_app. Qed.
+
+Lemma encs_cons ws x q : encs ws (x :: q) = enc ws (fst x) (snd x) ++ encs ws q.
+Proof. reflexivity. Qed.
+
+Lemma run_app ws b o1 o2 :
+  run ws b (o1 ++ o2) =
+  let '(b1, x1) := run ws b o1 in let '(b2, x2) := run ws b1 o2 in (b2, x1 ++ x2).
+Proof.
+  revert b; induction o1 as [|o o1 IH]; intros b; cbn [app run].
+  - destruct (run ws b o2); reflexivity.
+  - destruct (step ws b o) as [b' x]. rewrite IH.
+    destruct (run ws b' o1) as [b1 x1]. destruct (run ws b1 o2) as [b2 x2]. reflexivity.
+Qed.
+
+Definition kind_eq_dec (a b : kind) : {a = b} + {a <> b}.
+Proof. decide equality. Defined.
+
+(* The reference: a FIFO queue of typed values.  A read or peek is answered only when it asks
+   for the kind at the head of the queue (None = outside the contract). *)
+Definition sstep (ws : Z) (q : list tv) (o : op) : option (list tv * out) :=
+  match o with
+  | OWrite k v => Some (q ++ [(k, v)], RLen (length (encs ws (q ++ [(k, v)]))))
+  | ORead k => match q with
+               | (k', v) :: q' => if kind_eq_dec k k' then Some (q', RVal v (length (encs ws q'))) else None
+               | [] => None
+               end
+  | OPeek k => match q with
+               | (k', v) :: _ => if kind_eq_dec k k' then Some (q, RVal v (length (encs ws q))) else None
+               | [] => None
+               end
+  | OBytes => Some (q, RBytes (encs ws q))
+  end.
+
+Fixpoint srun (ws : Z) (q : list tv) (ops : list op) : option (list tv * list out) :=
+  match ops with
+  | [] => Some (q, [])
+  | o :: r => match sstep ws q o with
+              | None => None
+              | Some (q', x) => match srun ws q' r with
+                                | None => None
+                                | Some (q'', xs) => Some (q'', x :: xs)
+                                end
+              end
+  end.
+
+Definition wf_op (ws : Z) (o : op) : Prop :=
+  match o with OWrite k v => wf ws k v | _ => True end.
+
+Lemma step_refines ws q o q' x : word_size ws -> Forall (wf_tv ws) q -> wf_op ws o ->
+  sstep ws q o = Some (q', x) ->
+  step ws (encs ws q) o = (encs ws q', x) /\ Forall (wf_tv ws) q'.
+Proof.
+  intros Hws Hq Ho Hs. destruct o as [k v|k|k|]; cbn [sstep step] in *.
+  - inversion Hs; subst. rewrite write_app. rewrite encs_app. cbn [encs map concat fst snd].
+    rewrite app_nil_r. split; [reflexivity|]. apply Forall_app; split; [assumption|]. constructor; [exact Ho|constructor].
+  - destruct q as [|[k' v'] q0]; [discriminate|]. destruct (kind_eq_dec k k') as [->|]; [|discriminate].
+    inversion Hs; subst. inversion Hq as [|? ? Hx Hq0]; subst. rewrite encs_cons. cbn [fst snd].
+    rewrite read_enc by (assumption || exact Hx). split; [reflexivity|assumption].
+  - destruct q as [|[k' v'] q0]; [discriminate|]. destruct (kind_eq_dec k k') as [->|]; [|discriminate].
+    inversion Hs; subst. inversion Hq as [|? ? Hx Hq0]; subst. rewrite encs_cons. cbn [fst snd].
+    rewrite peek_enc by (assumption || exact Hx). split; [reflexivity|assumption].
+  - inversion Hs; subst. split; [reflexivity|assumption].
+Qed.
+
+(* refinement: on every operation sequence inside the contract the buffer behaves as the queue *)
+Lemma run_refines ws : word_size ws -> forall ops q q' xs,
+  Forall (wf_tv ws) q -> Forall (wf_op ws) ops -> srun ws q ops = Some (q', xs) ->
+  run ws (encs ws q) ops = (encs ws q', xs) /\ Forall (wf_tv ws) q'.
+Proof.
+  intros Hws. induction ops as [|o r IH]; intros q q' xs Hq Hops Hs; cbn [srun run] in *.
+  - inversion Hs; subst. split; [reflexivity|assumption].
+  - inversion Hops as [|? ? Ho Hr]; subst.
+    destruct (sstep ws q o) as [[q1 x]|] eqn:E1; [|discriminate].
+    destruct (srun ws q1 r) as [[q2 xs2]|] eqn:E2; [|discriminate].
+    inversion Hs; subst.
+    destruct (step_refines ws q o q1 x Hws Hq Ho E1) as [Hstep Hq1].
+    rewrite Hstep. destruct (IH q1 q' xs2 Hq1 Hr E2) as [Hrun Hq']. rewrite Hrun.
+    split; [reflexivity|assumption].
+Qed.
+
+(* ---- write everything, read everything back ---------------------------------------------- *)
+Definition wop (x : tv) : op := OWrite (fst x) (snd x).
+Definition rop (x : tv) : op := ORead (fst x).
+
+(* the values returned by reads and peeks, in order (None = panic) *)
+Definition vals_of (xs : list out) : list (option Z) :=
+  flat_map (fun x => match x with RVal v _ => [Some v] | RPanic _ => [None] | _ => [] end) xs.
+
+Lemma srun_writes ws vs : forall q,
+  exists xs, srun ws q (map wop vs) = Some (q ++ vs, xs) /\ vals_of xs = [].
+Proof.
+  induction vs as [|[k v] vs IH]; intros q; cbn [map srun].
+  - exists []. rewrite app_nil_r. split; reflexivity.
+  - cbn [wop fst snd sstep]. destruct (IH (q ++ [(k, v)])) as (xs & Hs & Hv). rewrite Hs.
+    eexists. rewrite <- app_assoc. split; [reflexivity|]. cbn [vals_of flat_map app]. exact Hv.
+Qed.
+
+Lemma srun_reads ws vs : forall rest,
+  exists xs, srun ws (vs ++ rest) (map rop vs) = Some (rest, xs) /\ vals_of xs = map (fun x => Some (snd x)) vs.
+Proof.
+  induction vs as [|[k v] vs IH]; intros rest; cbn [map srun app].
+  - exists []. split; reflexivity.
+  - cbn [rop fst sstep]. destruct (kind_eq_dec k k) as [_|]; [|congruence].
+    destruct (IH rest) as (xs & Hs & Hv). rewrite Hs. eexists. split; [reflexivity|].
+    cbn [vals_of flat_map app map snd]. f_equal. exact Hv.
+Qed.
+
+Lemma vals_of_app a b : vals_of (a ++ b) = vals_of a ++ vals_of b.
+Proof. unfold vals_of. apply flat_map_app. Qed.
+
+Lemma srun_app ws o1 o2 q q1 x1 q2 x2 :
+  srun ws q o1 = Some (q1, x1) -> srun ws q1 o2 = Some (q2, x2) ->
+  srun ws q (o1 ++ o2) = Some (q2, x1 ++ x2).
+Proof.
+  revert q q1 x1; induction o1 as [|o o1 IH]; intros q q1 x1 H1 H2; cbn [app srun] in *.
+  - inversion H1; subst. exact H2.
+  - destruct (sstep ws q o) as [[q' x]|]; [|discriminate].
+    destruct (srun ws q' o1) as [[q'' xs]|] eqn:E; [|discriminate]. inversion H1; subst.
+    rewrite (IH q' q1 xs E H2). reflexivity.
+Qed.
+
+Lemma wf_ops_writes ws vs : Forall (wf_tv ws) vs -> Forall (wf_op ws) (map wop vs).
+Proof. induction 1 as [|x l Hx Hl IH]; cbn [map]; constructor; [exact Hx|exact IH]. Qed.
+
+Lemma wf_ops_reads ws (vs : list tv) : Forall (wf_op ws) (map rop vs).
+Proof. induction vs; cbn [map]; constructor; [exact I|assumption]. Qed.
+
+Lemma roundtrip ws vs : word_size ws -> Forall (wf_tv ws) vs ->
+  fst (run ws [] (map wop vs ++ map rop vs)) = [] /\
+  vals_of (snd (run ws [] (map wop vs ++ map rop vs))) = map (fun x => Some (snd x)) vs.
+Proof.
+  intros Hws Hvs.
+  destruct (srun_writes ws vs []) as (x1 & H1 & Hv1). cbn [app] in H1.
+  destruct (srun_reads ws vs []) as (x2 & H2 & Hv2). rewrite app_nil_r in H2.
+  pose proof (srun_app ws _ _ _ _ _ _ _ H1 H2) as Hs.
+  assert (Hops : Forall (wf_op ws) (map wop vs ++ map rop vs))
+    by (apply Forall_app; split; [apply wf_ops_writes; assumption|apply wf_ops_reads]).
+  destruct (run_refines ws Hws _ [] [] (x1 ++ x2) (Forall_nil _) Hops Hs) as [Hrun _].
+  change (encs ws []) with (@nil Z) in Hrun. rewrite Hrun. cbn [fst snd].
+  split; [reflexivity|]. rewrite vals_of_app, Hv1, Hv2. reflexivity.
+Qed.
+
+(* after the writes the buffer holds the concatenated little-endian encodings *)
+Lemma writes_bytes ws vs b : fst (run ws b (map wop vs)) = b ++ encs ws vs.
+Proof.
+  revert b; induction vs as [|[k v] vs IH]; intros b; cbn [map run].
+  - now rewrite app_nil_r.
+  - cbn [wop fst snd step]. specialize (IH (write ws k v b)).
+    destruct (run ws (write ws k v b) (map wop vs)) as [b' xs]. cbn [fst] in *.
+    rewrite IH, write_app, encs_cons, <- app_assoc. reflexivity.
+Qed.
